@@ -74,7 +74,7 @@ esl_gev_pdf(double x, double mu, double lambda, double alpha)
    * as that's almost 2x faster (on my machine anyway).
    */
   if (ya1 <= 0) return 0.;
-  lya1 = log(ya1);
+  lya1 = log1p(alpha*y);
   return (lambda * exp(-(1.+ 1./alpha)*lya1 - exp(-lya1/alpha)));
 }
 
@@ -101,7 +101,7 @@ esl_gev_logpdf(double x, double mu, double lambda, double alpha)
    */
   if (ya1 <= 0) return -eslINFINITY;
 
-  lya1 = log(ya1);
+  lya1 = log1p(alpha*y);
   return ( (log(lambda) - (1.+1./alpha)*lya1) - exp(-lya1/alpha));
 }
 
@@ -127,7 +127,7 @@ esl_gev_cdf(double x, double mu, double lambda, double alpha)
     if (x < mu) return 0.0; /* the frechet case */
     else        return 1.0; /* the weibull case */
   }
-  lya1 = log(ya1);
+  lya1 = log1p(alpha*y);
   return (exp(-exp(-lya1/alpha)));
 }
 
@@ -155,7 +155,7 @@ esl_gev_logcdf(double x, double mu, double lambda, double alpha)
     else        return 0.0;     	/* Weibull  */
   }
 
-  lya1 = log(ya1);
+  lya1 = log1p(alpha*y);
   return (-exp(-lya1/alpha));
 }
 
@@ -181,7 +181,7 @@ esl_gev_surv(double x, double mu, double lambda, double alpha)
      if (x < mu) return 1.0;	/* the frechet case */
      else        return 0.0;	/* the weibull case */
    }
-   lya1 = log(ya1)/alpha;
+   lya1 = log1p(alpha*y)/alpha;
    return ((lya1 > -0.5*log(DBL_EPSILON)) ? exp(-lya1) : (1 - exp(-exp(-lya1))));
 }
 
@@ -217,7 +217,7 @@ esl_gev_logsurv(double x, double mu, double lambda, double alpha)
      else        return -eslINFINITY;   /* Weibull case */
    }
 
-   lya1 = log(ya1)/alpha;
+   lya1 = log1p(alpha*y)/alpha;
    if      (lya1 > -0.5 * log(DBL_EPSILON)) return (-lya1);
    else if (lya1 < -2.9)                    return (-exp(-exp(-lya1)));
    else                                     return (log(1-exp(-exp(-lya1))));
@@ -236,7 +236,7 @@ esl_gev_invcdf(double p, double mu, double lambda, double alpha)
   /* failover to Gumbel sample, for tiny alpha */
   if (fabs(alpha) < 1e-12) return (mu - log(-1. * log(p)) / lambda);
 
-  return mu + (exp(-alpha*log(-log(p))) - 1.) / (alpha * lambda) ;
+  return mu + expm1(-alpha*log(-log(p))) / (alpha * lambda) ;
 }
 /*-------------------- end densities & distributions ------------------------*/
 
